@@ -1,8 +1,19 @@
 #!/bin/sh
 # usage: tools/mkagent.sh <name> : isolated sandbox /tmp/ag/<name>/{verif,repo} on branches ag-<name>
+# The compiled Coq files of /verif/coq are copied over (sources dated before objects) so that the
+# sandbox's first `make` only rebuilds what the agent changes.
 set -e
 n=$1
 mkdir -p /tmp/ag/$n
 git -C /verif worktree add -q /tmp/ag/$n/verif -b ag-$n
 git -C /repo worktree add -q /tmp/ag/$n/repo -b ag-$n
+if [ -z "$(git -C /verif status --porcelain coq | head -1)" ] && [ -f /verif/coq/Makefile ]; then
+  cd /verif/coq
+  find . \( -name '*.vo' -o -name '*.vos' -o -name '*.vok' -o -name '*.glob' -o -name '.*.aux' -o -name 'Makefile*' -o -name '.Makefile.d' -o -name '_CoqProject' \) | tar cf - -T - | tar xf - -C /tmp/ag/$n/verif/coq
+  cd /tmp/ag/$n/verif/coq
+  find theories -name '*.v' | xargs touch -d '2020-01-01'
+  touch -d '2020-01-02' _CoqProject Makefile Makefile.conf
+  touch -d '2020-01-03' .Makefile.d
+  find theories \( -name '*.vo' -o -name '*.vos' -o -name '*.vok' -o -name '*.glob' -o -name '.*.aux' \) | xargs touch -d '2020-01-04'
+fi
 echo /tmp/ag/$n
